@@ -155,3 +155,47 @@ Proof.
       - inversion Hd; reflexivity. }
     apply Hck_d in E2. apply Hck_d in E1. rewrite E2. cbn [mix_key ck]. rewrite E1. reflexivity.
 Qed.
+
+(* ---- the two-party run ---------------------------------------------------------------------- *)
+Lemma run_pair_done : forall pi pr net rI rR, run_pair pi pr net = (rI, rR) ->
+  (forall id k st, rI = Done id k st -> exists stI q o, init_finish pi stI q = (Done id k st, o)) /\
+  (forall id k st, rR = Done id k st -> exists stR q, resp_finish pr stR q = Done id k st).
+Proof.
+  intros pi pr net rI rR H. unfold run_pair in H.
+  destruct (write_m1 pi) as [sI1 m1].
+  destruct (net M1 m1) as [|x qR].
+  { inversion H; subst. split; intros; discriminate. }
+  destruct (read_m1 pr x) as [sR1|].
+  2:{ inversion H; subst. split; intros; discriminate. }
+  destruct (write_m2 pr sR1) as [sR2 m2].
+  destruct (init_finish pi sI1 (net M2 m2)) as [r o] eqn:Ei.
+  destruct o as [m3|]; inversion H; subst; clear H; split; intros id k st Hd.
+  - subst. eauto.
+  - eauto.
+  - subst. eauto.
+  - eauto.
+Qed.
+
+Lemma names_peer_check : forall initiator sd x,
+  names_peer sd = Some x -> check_peer_id initiator sd = true /\ sd_expect sd = Some x.
+Proof.
+  intros initiator sd x H. unfold names_peer in H. unfold check_peer_id.
+  destruct (sd_session sd), (sd_disable sd); cbn in H; try discriminate; rewrite H;
+    destruct initiator; split; reflexivity.
+Qed.
+
+Lemma run_session_expected : forall sc n n' rI rR, run_session sc n n' = (rI, rR) ->
+  (forall id k st x, rI = Done id k st -> names_peer (sc_i sc) = Some x -> id = idn x) /\
+  (forall id k st x, rR = Done id k st -> names_peer (sc_r sc) = Some x -> id = idn x).
+Proof.
+  intros sc n n' rI rR H. unfold run_session in H. apply run_pair_done in H. destruct H as [HI HR].
+  split; intros id k st x Hd Hn.
+  - destruct (HI _ _ _ Hd) as [stI [q [o Hf]]]. apply init_finish_done in Hf.
+    destruct Hf as [re [cs [cp [rest [rs [r [ext [st2 [_ [_ [_ [_ [_ [Hc _]]]]]]]]]]]]]].
+    apply (names_peer_check true) in Hn. destruct Hn as [Hk He].
+    cbn [party_of p_check p_expect] in Hc. rewrite He in Hc. specialize (Hc Hk). inversion Hc. reflexivity.
+  - destruct (HR _ _ _ Hd) as [stR [q Hf]]. apply resp_finish_done in Hf.
+    destruct Hf as [cs [cp [rest [rs [r [ext [_ [_ [_ [_ [Hc _]]]]]]]]]]].
+    apply (names_peer_check false) in Hn. destruct Hn as [Hk He].
+    cbn [party_of p_check p_expect] in Hc. rewrite He in Hc. specialize (Hc Hk). inversion Hc. reflexivity.
+Qed.
